@@ -150,12 +150,14 @@ func Apply(ctx context.Context, rc *regclient.RegClient, rSrc ref.Ref, opts ...O
 				if dl.mod == deleted {
 					return dl, nil
 				}
+				scanOnly := false
 				if rdr == nil {
 					bRdr, err := rc.BlobGet(ctx, rSrc, dl.desc)
 					if err != nil {
 						return nil, err
 					}
 					rdr = bRdr
+					scanOnly = true
 				}
 				changed := false
 				empty := true
@@ -299,6 +301,10 @@ func Apply(ctx context.Context, rc *regclient.RegClient, rSrc ref.Ref, opts ...O
 					if dl.mod == unchanged {
 						dl.mod = replaced
 					}
+				} else if scanOnly {
+					// the reader was only opened to scan the files and is now consumed, there is no new content to push
+					_ = rdr.Close()
+					rdr = nil
 				}
 			}
 			// if added or replaced, and reader not nil, push blob
